@@ -22,14 +22,14 @@
    input). *)
 EXTENDS Integers, Sequences, FiniteSets, TLC
 
-CONSTANTS Kinds, AlwaysBad, PlainOps, VerbOps, Verbs, MaxLen,
+CONSTANTS Kinds, Origins, AlwaysBad, PlainOps, VerbOps, Verbs, MaxLen,
           Classified,   \* kinds whose verdict is derived from the dictionary keys
           Inserting     \* BOOLEAN, see above
 
-VARIABLES kind, good, pc, hist,
+VARIABLES kind, origin, good, pc, hist,
           keys,    \* key set of the dictionary behind `classify` ({} for the other kinds)
           dupKeys  \* key set inside the last duplicate (copy / pickle / reeval)
-ivars == <<kind, good, pc, hist, keys, dupKeys>>
+ivars == <<kind, origin, good, pc, hist, keys, dupKeys>>
 
 AllStatuses == {"OK", "KO", "OTHER"}
 FreshKeys(k, g) == IF k \in Classified THEN (IF g THEN {"OK"} ELSE {"OK", "KO"}) ELSE {}
@@ -37,25 +37,26 @@ VerdictOf(k, g, ks) == IF k \in Classified THEN ks = {"OK"} ELSE g
 Verdict == VerdictOf(kind, good, keys)
 
 (* refinement mapping *)
-AbsOf(k, g, ks) == [verdict |-> VerdictOf(k, g, ks), stats |-> <<"stats", k, g>>, data |-> <<"data", k, g>>]
-Unset == [verdict |-> FALSE, stats |-> <<"none", "", FALSE>>, data |-> <<"none", "", FALSE>>]
-AbsImpl == IF pc = "new" THEN Unset ELSE AbsOf(kind, good, keys)
-DupImpl == IF pc = "new" THEN Unset ELSE AbsOf(kind, good, dupKeys)
+AbsOf(k, o, g, ks) == [verdict |-> VerdictOf(k, g, ks), stats |-> <<"stats", k, o, g>>, data |-> <<"data", k, o, g>>]
+Unset == [verdict |-> FALSE, stats |-> <<"none", "", "", FALSE>>, data |-> <<"none", "", "", FALSE>>]
+AbsImpl == IF pc = "new" THEN Unset ELSE AbsOf(kind, origin, good, keys)
+DupImpl == IF pc = "new" THEN Unset ELSE AbsOf(kind, origin, good, dupKeys)
 
 O == INSTANCE Observe WITH abs <- AbsImpl, dup <- DupImpl
 
 (* does the operation go through classification_counts ? *)
-Counts(o) == \/ o.op \in {"counts", "plot", "full", "rst"}
+Counts(o) == \/ o.op \in {"counts", "plot", "full", "rst", "draw"}
              \/ o.op = "table" /\ ~(o.verb = 0 /\ Verdict)     \* SILENT table of a successful summary is empty
 AfterRead(o) == IF kind \in Classified /\ Inserting /\ Counts(o) THEN keys \cup AllStatuses ELSE keys
 
 Init == /\ kind \in Kinds
+        /\ origin \in Origins        \* the dictionary travels unchanged through every way of obtaining the summary
         /\ good \in IF kind \in AlwaysBad THEN {FALSE} ELSE BOOLEAN
         /\ pc = "new" /\ hist = <<>> /\ keys = {} /\ dupKeys = {}
 
 Evaluate == /\ pc = "new" /\ pc' = "ready"
             /\ keys' = FreshKeys(kind, good) /\ dupKeys' = FreshKeys(kind, good)
-            /\ UNCHANGED <<kind, good, hist>>
+            /\ UNCHANGED <<kind, origin, good, hist>>
 
 Read(o) == /\ pc = "ready" /\ Len(hist) < MaxLen
            /\ hist' = Append(hist, o)
@@ -63,7 +64,7 @@ Read(o) == /\ pc = "ready" /\ Len(hist) < MaxLen
            /\ dupKeys' = CASE o.op \in {"copy", "pickle"} -> keys     \* a duplicate carries the dictionary as it is
                            [] o.op = "reeval" -> FreshKeys(kind, good) \* a new evaluation starts afresh
                            [] OTHER -> dupKeys
-           /\ UNCHANGED <<kind, good, pc>>
+           /\ UNCHANGED <<kind, origin, good, pc>>
 
 Next == Evaluate \/ \E o \in O!Ops : Read(o)
 Spec == Init /\ [][Next]_ivars
